@@ -6,25 +6,27 @@ Import ListNotations.
 From VF Require Import C11.Model C12.Model C12.Proofs C12.ProofsB.
 Local Open Scope N_scope.
 
-(* FULL STATEMENT (secrecy).  For every formatter configuration (deterministic or random ids, any MAC key, any
+Definition c_det0 : fcfg := {| f_det := true; f_mac := 0; f_rcp := 0 |}.
+
+(* FULL STATEMENT (secrecy, repaired code).  For every formatter configuration (deterministic or random ids, any MAC key, any
    recipient key), every history of Put / Get / GetTags / GetBulk / Query (name, name:value, && strings) / Delete /
-   Batch / Flush / Close+Open / SetStoreConfig / GetStoreConfig of any length, and an attacker who sees EVERY argument
+   Query with page-size and sort options / Batch / Flush / Close+Open / SetStoreConfig / GetStoreConfig of any length, and an attacker who sees EVERY argument
    of EVERY call on the underlying provider and additionally owns any MAC keys and private keys other than the
    configured ones: no application key, value, tag name or tag value is derivable — where derivation may undo every
    encoding (base58, base64 of any flavour, hex), take structures apart, decrypt with any key it can derive, and
    build anything from what it has.  (Store names, and whether a tag value is empty, are not application strings of
    the model: the code passes them through by design.) *)
 Theorem no_plaintext_leak : forall (c : fcfg) (ops : list xop) (others : list term) (cl : cls) (n : N),
-  foreign_keys c others -> ~ derivable (others ++ log_terms (xlog c ops)) (App cl n).
+  foreign_keys c others -> ~ derivable (others ++ log_terms (xlog Fixed c ops)) (App cl n).
 Proof. intros c ops others cl n Hk HD. apply (secrecy c ops others _ Hk) in HD. discriminate. Qed.
 Print Assumptions no_plaintext_leak.
 
 (* neither are the configured MAC key, the recipient's private key or any content encryption key *)
 Theorem no_key_leak : forall (c : fcfg) (ops : list xop) (others : list term),
   foreign_keys c others ->
-  ~ derivable (others ++ log_terms (xlog c ops)) (MacKey (f_mac c)) /\
-  ~ derivable (others ++ log_terms (xlog c ops)) (Priv (f_rcp c)) /\
-  forall n, ~ derivable (others ++ log_terms (xlog c ops)) (Cek n).
+  ~ derivable (others ++ log_terms (xlog Fixed c ops)) (MacKey (f_mac c)) /\
+  ~ derivable (others ++ log_terms (xlog Fixed c ops)) (Priv (f_rcp c)) /\
+  forall n, ~ derivable (others ++ log_terms (xlog Fixed c ops)) (Cek n).
 Proof.
   intros c ops others Hk. split; [|split; [|intro n]]; intro HD; apply (secrecy c ops others _ Hk) in HD;
     cbn in HD; rewrite ?N.eqb_refl in HD; discriminate.
@@ -34,7 +36,7 @@ Print Assumptions no_key_leak.
 (* the same from ANY provider content that earlier histories (under the same keys) may have left behind *)
 Theorem no_plaintext_leak_from_any_state : forall (c : fcfg) (s : st) (ops : list xop) (others : list term) (cl : cls) (n : N),
   inv c s -> foreign_keys c others ->
-  ~ derivable (others ++ log_terms (flat_map snd (snd (xrun c s ops)))) (App cl n).
+  ~ derivable (others ++ log_terms (flat_map snd (snd (xrun Fixed c s ops)))) (App cl n).
 Proof. intros c s ops others cl n Hi Hk HD. apply (secrecy_from c s ops others _ Hi Hk) in HD. discriminate. Qed.
 Print Assumptions no_plaintext_leak_from_any_state.
 
@@ -42,18 +44,18 @@ Print Assumptions no_plaintext_leak_from_any_state.
    keys and content keys occur only under the configured MAC key or inside a ciphertext whose content key is wrapped
    for the configured recipient ([ok], coq/C12/Proofs.v) *)
 Theorem all_calls_formatted : forall (c : fcfg) (ops : list xop) (t : term),
-  In t (log_terms (xlog c ops)) -> ok c t = true.
+  In t (log_terms (xlog Fixed c ops)) -> ok c t = true.
 Proof. intros c ops t. apply calls_ok_terms, xlog_ok. Qed.
 Print Assumptions all_calls_formatted.
 
 (* every document handed to the provider for storage (Put values, Batch values, the store-config document) opens with
    the configured key, to the key/value/tags the formatter was given, and with NO other recipient key *)
 Theorem decrypts_only_with_key : forall (c : fcfg) (ops : list xop) (d : term),
-  In d (stored (xlog c ops)) ->
+  In d (stored (xlog Fixed c ops)) ->
   (exists id idx n k v tags, d = mkdoc id idx (jwe c n (content k v tags)) /\ deformat (f_rcp c) d = Some (k, v, tags)) /\
   (forall r, r <> f_rcp c -> deformat r d = None).
 Proof.
-  intros c ops d Hd. destruct (xlog_q c ops) as [hi [_ HF]]. rewrite Forall_forall in HF.
+  intros c ops d Hd. destruct (xlog_q Fixed c ops) as [hi [_ HF]]. rewrite Forall_forall in HF.
   apply doc_deformat. auto.
 Qed.
 Print Assumptions decrypts_only_with_key.
@@ -62,36 +64,50 @@ Print Assumptions decrypts_only_with_key.
    under its own content key (content keys strictly increase along the log) — whatever was put, also the same
    key/value/tags again *)
 Theorem ciphertexts_differ : forall (c : fcfg) (ops : list xop),
-  NoDup (map cek_of (stored (xlog c ops))) /\ NoDup (stored (xlog c ops)).
+  NoDup (map cek_of (stored (xlog Fixed c ops))) /\ NoDup (stored (xlog Fixed c ops)).
 Proof.
-  intros c ops. destruct (xlog_q c ops) as [hi [HI _]]. apply incr_nodup in HI.
+  intros c ops. destruct (xlog_q Fixed c ops) as [hi [HI _]]. apply incr_nodup in HI.
   split; [assumption|eapply nodup_map_inv; eassumption].
 Qed.
 Print Assumptions ciphertexts_differ.
 
+(* HISTORICAL REFUTATION.  The code as found handed the caller's query options to the underlying store unchanged: the
+   tag name of a sort option reached the provider in plaintext (confirmed on the real code; repaired by the fix:
+   commit 73249c6 in /repo; witness corpus/C12/sort-option-tag-name.json, replayed on every run). *)
+Theorem no_plaintext_leak_asis_refuted :
+  let ops := [XS (Put 1 1 [(1, 1); (2, 2)]); XQuerySort [(1, 1)] 2] in
+  derivable (log_terms (xlog AsIs c_det0 ops)) (App CName 2) /\
+  ~ derivable (log_terms (xlog Fixed c_det0 ops)) (App CName 2).
+Proof.
+  split.
+  - apply d_known. vm_compute. tauto.
+  - intro HD. apply (secrecy c_det0 _ [] (App CName 2)) in HD; [discriminate|intros t []].
+Qed.
+Print Assumptions no_plaintext_leak_asis_refuted.
+
 (* ---------- non-vacuity ---------- *)
 Definition demo : list xop :=
   [XSetCfg [1; 2]; XS (Put 1 1 [(1, 1)]); XS (Put 1 1 [(1, 1)]); XS (Query [(1, 1)]);
-   XS (Batch [(1, 0, []); (1, 2, [(2, 0)]); (2, 1, [])]); XS (Delete 2); XGetCfg].
+   XS (Batch [(1, 0, []); (1, 2, [(2, 0)]); (2, 1, [])]); XS (Delete 2); XGetCfg; XQuerySort [(1, 0)] 2].
 Definition c_rand : fcfg := {| f_det := false; f_mac := 0; f_rcp := 0 |}.
 Definition c_det : fcfg := {| f_det := true; f_mac := 0; f_rcp := 0 |}.
 
 (* the history reaches the provider (calls, stored documents, the same plaintext stored twice) *)
 Example demo_reaches_provider :
-  length (xlog c_rand demo) = 16%nat /\ length (stored (xlog c_rand demo)) = 5%nat /\
-  length (xlog c_det demo) = 10%nat /\ length (stored (xlog c_det demo)) = 5%nat.
+  length (xlog Fixed c_rand demo) = 17%nat /\ length (stored (xlog Fixed c_rand demo)) = 5%nat /\
+  length (xlog Fixed c_det demo) = 11%nat /\ length (stored (xlog Fixed c_det demo)) = 5%nat.
 Proof. vm_compute. repeat split. Qed.
 
 (* derivability is not trivially empty: the attacker reads the indexed attributes out of a stored document ... *)
-Example attacker_reads_index : derivable (log_terms (xlog c_det demo)) (Mac (MacKey 0) (App CName 1)).
+Example attacker_reads_index : derivable (log_terms (xlog Fixed c_det demo)) (Mac (MacKey 0) (App CName 1)).
 Proof.
   apply (d_dec _ 1). apply (d_known _ (mac64 c_det (App CName 1))). vm_compute. tauto.
 Qed.
 
 (* ... and the secrecy rests on the key: whoever holds the recipient's private key reads the value *)
-Example key_holder_reads_value : derivable (Priv 0 :: log_terms (xlog c_det demo)) (App CVal 1).
+Example key_holder_reads_value : derivable (Priv 0 :: log_terms (xlog Fixed c_det demo)) (App CVal 1).
 Proof.
-  set (K := Priv 0 :: log_terms (xlog c_det demo)).
+  set (K := Priv 0 :: log_terms (xlog Fixed c_det demo)).
   set (d := mkdoc (det_id c_det (tkey 1)) [fmt_tag c_det (app_tag (1, 1))]
               (jwe c_det 1 (content (tkey 1) (tval 1) [app_tag (1, 1)]))).
   assert (Hd : derivable K d) by (apply d_known; vm_compute; tauto).
